@@ -59,6 +59,31 @@ SEEDS = {
                                            "count % 128 != 0, (count % 128) * bitWidth a multiple of 8, dirty destination buffer"),
  "C16-pfor-exception-count-shortcut": (["C16", "C03"], "varintPFORComputeThreshold computes exceptionCount as count - 1 - thresholdIndex instead of counting values above the threshold",
                                        "duplicates of the percentile value beyond the threshold index"),
+ # ---- batch 4 ----
+ "C01-split-width-readback-mask": (["C01", "C04"], "varintSplitEncodingWidthBytesExternal_ reads the stored width as first byte & 0x07: the 9-byte type byte 0x88 needs bit 3, so width 8 reads back as 0",
+                                   "a split varint in the 9-byte class (value >= 16446 + 2^56), forward or reversed"),
+ "C14-tagged-get-length-check-off-by-one": (["C14", "C01"], "varintTaggedGet compares n with the payload size (first byte - 247) instead of the total width: an encoding cut short by one byte is accepted and read past its declared input",
+                                            "a tagged varint of width >= 3 truncated by exactly one byte"),
+ "C16-bp128-delta64-blockcount": (["C16"], "varintBP128DeltaEncode64 reports blockCount as (count-1)/128 + 1: one block too many when count-1 is a multiple of 128",
+                                  "count = 128k + 1 with a non-NULL meta"),
+ "C13-bp128-decode32-zero-tail-clamp": (["C13"], "varintBP128Decode32's capacity clamp on the trailing partial block moved into the bit-unpacking branch: the all-zero memset path uses the unclamped count",
+                                        "all-zero trailing partial block, capacity between the last full-block boundary and the count"),
+ "C04-splitfull-length-early-test": (["C04", "C01"], "varintSplitFullLengthVAR_ tests the value with < UINT8_MAX instead of the byte length == 1: the last value of the unused range is written as 2 bytes with the tag documented NOT USED",
+                                     "exactly the value 4211004 in split-full"),
+ "C17-dict-free-cache": (["C17", "C15"], "varintDictFree keeps the last freed dictionary in a file-scope static pointer and varintDictCreate hands it out again",
+                         "two threads overlapping in the dictionary helpers, inputs with more than 16 distinct values"),
+ "C05-tagged-addnogrow-keeps-width": (["C05", "C12", "C04"], "varintTaggedAddNoGrow keeps a 4-byte-or-wider varint at its original width when the value shrinks (padded fixed-width form): equal values no longer have identical bytes and memcmp order is wrong",
+                                      "encode >= 67824, add a negative delta that drops it into a lower width class, compare bytes with another key"),
+ "C07-compose-clamp-dbl-min-exp": (["C07"], "varintFloatCompose clamps with exponent < DBL_MIN_EXP (-1021) instead of -1022: the smallest normal binade is flushed to zero",
+                                   "a double in [2^-1022, 2^-1021)"),
+ "C11-get-single-slot-test-strict": (["C11"], "varintBitstreamGet takes the two-slot path when the field ends exactly on a slot edge: reads the following word and shifts by the word size",
+                                     "(offset mod 64) + width == 64"),
+ "C03-float-max-size-two-byte-exponent": (["C03"], "varintFloatMaxEncodedSize charges 2 bytes per exponent instead of 9 and takes the larger of normal and special cost instead of their sum",
+                                          "FULL precision, INDEPENDENT mode, doubles whose exponent is outside [-128, 127]"),
+ "C09-setincr-keep-mask-not-widened": (["C09"], "PACKED_ARRAY_SET_INCR's keep-mask for the second slot is complemented in 32 bits and zero-extended: bits 32..63 of a 64-bit slot are cleared",
+                                       "64-bit slots, SetIncr on an element straddling two slots, data in the upper half of the second slot"),
+ "C18-countunique-fallback-claims-all-unique": (["C18", "C06"], "the out-of-memory fallbacks of varintAdaptiveCountUnique return count (all unique) instead of count - 1: BITMAP can be selected for input with duplicates",
+                                                "the first allocation fails; ascending input < 65536 with a duplicate, dense, count < 10000"),
  "C18-array-grow-realloc-in-place": (["C18"], "arrayEnsureCapacity_ assigns realloc's result straight to the values field: on failure the old array is leaked and the field is NULL with cardinality > 0",
                                      "allocation failure exactly at the array growth realloc"),
 }
@@ -76,7 +101,7 @@ def demo_cmd(src, prop, tree, sdir):
             if not l.endswith("\\"): break
     cmd = cmd.strip()
     if "&&" in cmd: cmd = cmd.split("&&")[0].strip()
-    m2 = re.search(r"/tmp/w[t2]-[A-Za-z0-9]+", cmd)
+    m2 = re.search(r"/tmp/w[t0-9]-[A-Za-z0-9]+", cmd)
     wt = m2.group(0) if m2 else "/tmp/wt-%s" % prop
     cmd = cmd.replace(wt + "/_seed/demo.c", os.path.join(sdir, "demo.c")).replace(wt + "/_seed/demo", os.path.join(tree, "_demo")).replace(wt, tree)
     cmd = re.sub(r"(?<![\w/])_seed/demo\.c", os.path.join(sdir, "demo.c"), cmd); cmd = re.sub(r"(?<![\w/.])src/", tree + "/src/", cmd); cmd = re.sub(r"-I ?src\b", "-I" + tree + "/src", cmd)
